@@ -1233,3 +1233,45 @@ def oracle(ctx, kind, case, out):
         else:
             fail("out-of-range TTL accepted")
     return F
+
+
+# ------------------------------------------------------------------ exhaustive style product on fixed zones
+
+EXH_TEXT = (b"@ 3600 IN SOA ns hostmaster 1 7200 900 1209600 300\n@ 3600 IN NS ns\n@ 3600 IN NS ns2.elsewhere.\n"
+            b"@ 300 IN MX 10 mail\nns 300 IN A 192.0.2.1\nns 300 IN AAAA 2001:db8::1\nmail 300 IN A 192.0.2.2\n"
+            b"mail 7 IN A 192.0.2.3\nwww 60 IN CNAME ns\nwww 60 IN RRSIG CNAME 8 2 60 20260101000000 20250101000000 1 @ AQID\n"
+            b"txt 0 IN TXT \"a b\" \"\\\"\\;(\"\nkey 300 IN DNSKEY 256 3 8 AAECAwQFBgcICQoLDA0ODxAREhMUFRYXGBkaGxwdHh8gISIjJCUmJygpKissLS4v\n"
+            b"a.b.c 4294967295 IN TYPE65280 \\# 3 010203\n\\$x.\\@ 300 IN PTR @\n")
+
+
+def extra(ctx):
+    """every combination of the boolean lossless options x output relativity x default TTL, on a fixed zone,
+    relativized and absolute (the whole product, not a sample)"""
+    import itertools
+    fails = []
+    n = 0
+    origin = [b"example", b""]
+    for rel in (0, 1):
+        for srt, wo, dd, oc, ge, wc in itertools.product((0, 1), repeat=6):
+            for dt in (None, 300):
+                for org, rl in ((None, 0), (origin, 1), (origin, 0)):
+                    if ctx.quick and (srt + wo + dd + oc + ge + wc) % 2 == 1:
+                        continue   # quick: half of the product
+                    so = [srt, wo, dt, dd, 0, oc, 0, ge, -16 if dd else 0, 6, 0, -6, org, rl, 0]
+                    case = normalize_case([20, origin, rel, EXH_TEXT, [so, [["want_comments", wc]]]])
+                    out = impl(case)
+                    n += 1
+                    for f in oracle(ctx, "roundtrip-exhaustive", case, out):
+                        f["case"] = case
+                        f["case_kind"] = "roundtrip-exhaustive"
+                        fails.append(f)
+    ctx.notes["exhaustive"] = True
+    ctx.notes["extra_evaluations"] = n
+    ctx.notes["extra_nontrivial"] = n
+    ctx.notes["exhaustive_scope"] = "style product sorted x want_origin x deduplicate_names x omit_rdclass x want_generic x want_comments x default_ttl{None,300} x (origin,relativize){(None,F),(o,T),(o,F)} x zone relativized/absolute on a fixed 8-name zone (quick: the even-parity half)"
+    return fails
+
+
+def normalize_case(c):
+    import lib
+    return lib.normalize(c)
